@@ -2,6 +2,8 @@ import OjgVerif.Props.C05
 import OjgVerif.JPath.LemmasRfc
 import OjgVerif.JPath.LemmasMach
 import OjgVerif.JPath.LemmasTyped
+import OjgVerif.JPath.LemmasBudget
+import OjgVerif.JPath.LemmasNodes
 import OjgVerif.Gen.JpathFacts
 /-! # C11 — every JSONPath evaluator and data representation agrees with Get
 
@@ -399,6 +401,20 @@ theorem C11_locate_budget_witness :
     (locateRec Cfg.pinned Rep.simple [.descent] 2 (.arr [.arr [.int 1, .int 2], .arr [.int 3]])).length = 2 := by
   decide
 
+/-- **Locate respects its budget on every path without a slice fragment**: for `max > 0` the recursive `locate`
+methods return at most `max` paths — every configuration, representation tag and tree. (With a slice the claim is
+false: `C11_locate_budget_witness`. "The returned slice is limited to the max specified" is Locate's doc comment; the
+property C11 does not speak of `max`.) -/
+theorem C11_locate_budget (cfg : Cfg) (rep : Rep) (x : List Frag) (hx : x.all noSlice = true)
+    (max : Int) (hm : 0 < max) (d : JV) : ((locateRec cfg rep x max d).length : Int) ≤ max := by
+  cases x with
+  | nil => simp only [locateRec]; split <;> simp <;> omega
+  | cons f r => exact locRec_le cfg rep (f :: r) hx max d hm
+
+/-- non-trivial instance of the hypothesis: `$..a[*][?].b[1,2]` has no slice fragment -/
+example : [Frag.descent, .child [97], .wild, .filter (fun _ => true), .child [98], .union [.idx 1, .idx 2]].all noSlice = true := by
+  decide
+
 /-! ## GetNodes, FirstNode (gen data) and Get on other representations -/
 
 theorem gen_not_cut (cfg : Cfg) : (cfg.typedMapWild && decide (Rep.gen.ok = OKind.rmap)) = false := by
@@ -483,6 +499,32 @@ theorem C11_nodes_full_false_before_360668e : ¬ C11_nodes_full Cfg.original := 
   have h2 : (nodesM Cfg.original w7path w7data).length = 2 := by decide
   have h3 : (getM Cfg.original Rep.gen w7path w7data).length = 1 := by decide
   omega
+
+/-- **the GetNodes machine** (`nodesMach`: Get's round with node.go's one difference in control flow — a leaf handed
+to a descent is dropped, there is no `default:` arm) **computes the skeleton model `nodesM`**, hence, for the code as
+it is now, is Get on gen data and Get on the plain data: every tree, every path not ending in a bare descent -/
+theorem C11_nodes_machine (cfg : Cfg) (hs : cfg.descentSiblings = false) (x : List Frag) (d : JV)
+    (ht : endsInDescent x = false) : nodesMach cfg x d = nodesM cfg x d :=
+  nodesMach_eq_nodesM cfg hs x d ht
+
+theorem C11_nodes_machine_current (x : List Frag) (d : JV) (ht : endsInDescent x = false) :
+    nodesMach Cfg.pinned x d = getM Cfg.pinned Rep.gen x d ∧
+    nodesMach Cfg.pinned x d = getM Cfg.pinned Rep.simple x d := by
+  have h := C11_nodes_current x d
+  rw [C11_nodes_machine Cfg.pinned rfl x d ht]
+  exact ⟨h.1, h.1.trans h.2.2.1⟩
+
+/-- **the FirstNode machine** (`firstNodeMach`: FirstFound's round with node.go's dropped-leaf branch) **returns the
+first of what the GetNodes machine returns** (node.go's flags off: since 360668e; every configuration of the others),
+hence, for the code as it is now, the first of Get's results on the plain data -/
+theorem C11_firstnode_machine (cfg : Cfg) (hl : cfg.firstNodeLast = false) (hu : cfg.nodesUnionNil = false)
+    (hr : cfg.nodesFilterRev = false) (x : List Frag) (d : JV) (ht : endsInDescent x = false) :
+    firstNodeMach cfg x d = (nodesMach cfg x d).head? :=
+  firstNodeMach_eq_head cfg hl hu hr x d ht
+
+theorem C11_firstnode_machine_current (x : List Frag) (d : JV) (ht : endsInDescent x = false) :
+    firstNodeMach Cfg.pinned x d = (getM Cfg.pinned Rep.simple x d).head? := by
+  rw [C11_firstnode_machine Cfg.pinned rfl rfl rfl x d ht, (C11_nodes_machine_current x d ht).2]
 
 /-! ## Typed (reflect) representations
 
